@@ -100,9 +100,10 @@ def rest_cases(ctx):
              Reqs='{Req(c, <<HdrStep("h1"), StatusStep(201), WriteStep("a")>>, t) : c \\in {0,15,16,17,63,64,65,300}, t \\in Terms}',
              Cfgs="{[maxConns |-> 1, maxBytes |-> 16], [maxConns |-> 1, maxBytes |-> 64]}")
     cl = [json.loads(x) for x in cl]
-    # handlers that end in WriteHeader(invalid status code) - a panic raised inside the response writer
+    # handlers that end in WriteHeader(invalid status code) - a panic raised inside the response writer - or in a panic
+    # with another kind of value (error, runtime error, http.ErrAbortHandler, custom type)
     bad = gen(ctx, "gen-badcode", "script", Hdrs='{"h1"}', Codes="{201}", Chunks='{"a","big"}',
-              Reqs="AllReqsT({0}, %d, BadTerms)" % (1 if ctx.quick else 2))
+              Reqs="AllReqsT({0}, %d, BadTerms \\cup PanicTerms)" % (1 if ctx.quick else 2))
     bad = [json.loads(x) for x in bad]
     ctx.notes["scenarios_invalid_status"] = len(bad)
     scr += bad
